@@ -25,7 +25,7 @@ func registerC08() {
 		ID:    "C08",
 		Level: "exploration",
 		Rule: "a history is a PRNG sequence of 40-200 calls drawn from Decode (8 option sets), DecodeChained, CheckIntegrity (both modes), DecodeHeader, DecodeHeaderAndFileID, " +
-			"Header.MarshalJSON, Encode of API-built Files, Encode of decoded Files (both byte orders), Encode into a writer that fails part-way and Encode of a File with an un-encodable string over a pool of device files, model streams (incl. every accumulated " +
+			"Header.MarshalJSON, Encode of API-built Files, Encode of decoded Files (both byte orders), every history also holds the **mode pairs** (ten accepted streams with one unusual trait each - newer / older profile versions, protocol 1.0 and 2.15, big-endian, developer data, compressed timestamps, unknown messages - then fifteen small streams with one defect of definition each, or the other way round), Encode into a writer that fails part-way and Encode of a File with an un-encodable string over a pool of device files, model streams (incl. every accumulated " +
 			"component source) and API-built Files; each history runs in its own process; after every call a digest of the result (canonical content / bytes written / error text) " +
 			"is compared with (a) an immediate repetition of the call and (b) the digest of the same call made FIRST in a fresh process (one process per distinct call); some Decode calls overwrite every number and slice element of the File they got back before the next call is made; every successful Encode of an API-built File is repeated on the same File value (same bytes), then on the same File value after its messages were edited in place (bytes of a never-encoded identical File), and followed by an Encode of an identical File into a buffer that already holds the first output, which must append the same bytes and leave the earlier ones alone. " +
 			"Every history also encodes one whole length group: three Files of one shape whose strings and arrays differ in length (also string fields the profile gives no size). Non-trivial: a call preceded by at least one other call whose digest was compared with its fresh-process baseline; distinct by (history, position)",
@@ -51,6 +51,9 @@ type c08Pools struct {
 	twinGroups   [][2]int
 	lengthGroups [][2]int
 	crossGroups  [][2]int
+	// modeA / modeV: [first, last] input indices of the accepted streams with one unusual trait
+	// each and of the streams with one defect each (round 13)
+	modeA, modeV [2]int
 }
 
 var (
@@ -166,19 +169,101 @@ func c08Pool() *c08Pools {
 			c08P.names = append(c08P.names, fmt.Sprintf("twinV#%d", g))
 			c08P.twinGroups = append(c08P.twinGroups, [2]int{first, len(c08P.inputs) - 1})
 		}
+		// Mode pairs (round 13): accepted streams that each have one unusual trait a decoder could
+		// take note of (a profile version newer / far newer / older than the library's, protocol
+		// 1.0 with a 12-byte header, a high minor protocol version, big-endian definitions only,
+		// developer data, compressed timestamps, unknown messages), and small streams that each
+		// have one defect or oddity of definition (a scalar defined wider than its base type with
+		// the matching base type, a size that is no multiple of the element size, an undefined base
+		// type byte, a record on an undefined slot, a protocol major version from the future), with
+		// plain headers. Every history decodes all of the first kind and then all of the second
+		// (or the other way round): what a stream gets must not depend on what was seen before.
+		{
+			c08P.modeA[0] = len(c08P.inputs)
+			addA := func(name string, pl *ref.Plan) {
+				c08P.inputs = append(c08P.inputs, pl.Bytes())
+				c08P.names = append(c08P.names, "modeA#"+name)
+			}
+			small := func(k uint64, o lib.GenOpts) *ref.Plan {
+				rng := lib.NewRand("C08.pool.modes", k)
+				o.FileType, o.Records, o.Locals = 4, 6, 2
+				if o.Mesgs == nil {
+					o.Mesgs = []uint16{20, 19, 18, 21, 23}
+				}
+				return lib.NewPlanGen(rng, o).Fill()
+			}
+			for i, pv := range []uint16{fit.ProfileVersion + 1, 0xFFFF, fit.ProfileVersion + 1000, 100} {
+				pl := small(uint64(i), lib.GenOpts{})
+				pl.ProfVer = pv
+				addA(fmt.Sprintf("profile-version-%d", pv), pl)
+			}
+			pl := small(10, lib.GenOpts{HeaderSize: 12})
+			pl.Proto = 0x10
+			addA("protocol-1.0-header-12", pl)
+			pl = small(11, lib.GenOpts{})
+			pl.Proto = 0x2F
+			addA("protocol-2.15", pl)
+			addA("big-endian", small(12, lib.GenOpts{BigEndian: 100}))
+			addA("developer-data", small(13, lib.GenOpts{Unknown: 100, DevDescribe: 100}))
+			addA("compressed-timestamps", small(14, lib.GenOpts{Compressed: 70, TimeModel: 100}))
+			addA("unknown-messages", small(15, lib.GenOpts{Unknown: 100, Unknown253: 100}))
+			c08P.modeA[1] = len(c08P.inputs) - 1
+			c08P.modeV[0] = len(c08P.inputs)
+			addV := func(name string, proto byte, pv uint16, recs ...ref.Record) {
+				pl := &ref.Plan{HeaderSize: 14, Proto: proto, ProfVer: pv}
+				pl.Records = append(pl.Records,
+					ref.Record{IsDef: true, Local: 0, Global: 0, Fields: []ref.FieldDef{{Num: 0, Size: 1, Base: 0}}},
+					ref.Record{Local: 0, Data: [][]byte{{4}}})
+				pl.Records = append(pl.Records, recs...)
+				c08P.inputs = append(c08P.inputs, pl.Bytes())
+				c08P.names = append(c08P.names, "modeV#"+name)
+			}
+			one := func(g uint16, num, size, base byte) []ref.Record {
+				data := make([]byte, size)
+				for i := range data {
+					data[i] = byte(0x21 + i)
+				}
+				return []ref.Record{
+					{IsDef: true, Local: 1, Global: g, Fields: []ref.FieldDef{{Num: num, Size: size, Base: base}}},
+					{Local: 1, Data: [][]byte{data}},
+					{IsDef: true, Local: 2, Global: 20, Fields: []ref.FieldDef{{Num: 3, Size: 1, Base: 0x02}}},
+					{Local: 2, Data: [][]byte{{77}}}}
+			}
+			pvs := []uint16{fit.ProfileVersion, 2000, 100}
+			for i, w := range [][4]int{
+				{20, 3, 2, 0x02},  // record.heart_rate uint8 in 2 bytes
+				{20, 3, 4, 0x02},  // ... in 4 bytes
+				{20, 2, 4, 0x84},  // record.altitude uint16 in 4 bytes
+				{20, 2, 6, 0x84},  // ... in 6 bytes
+				{19, 25, 2, 0x00}, // lap.sport enum in 2 bytes
+				{18, 5, 3, 0x00},  // session.sport enum in 3 bytes
+				{20, 5, 8, 0x86},  // record.distance uint32 in 8 bytes
+				{20, 0, 8, 0x85},  // record.position_lat sint32 in 8 bytes
+				{20, 2, 3, 0x84},  // uint16 in 3 bytes: no multiple of the element size
+				{20, 5, 6, 0x86},  // uint32 in 6 bytes
+				{20, 3, 1, 0x27},  // undefined base type byte
+				{20, 3, 0, 0x02},  // zero size
+				{0, 0, 2, 0x00},   // a second file_id with its type in 2 bytes
+			} {
+				addV(fmt.Sprintf("def-%d.%d-size%d-base%#x", w[0], w[1], w[2], w[3]), 0x20, pvs[i%3], one(uint16(w[0]), byte(w[1]), byte(w[2]), byte(w[3]))...)
+			}
+			addV("undefined-slot", 0x20, 2000, ref.Record{Local: 7, Data: [][]byte{{1, 2, 3}}})
+			addV("protocol-3.0", 0x30, 2000, one(20, 3, 1, 0x02)...)
+			c08P.modeV[1] = len(c08P.inputs) - 1
+		}
 		// chains of accepted inputs
 		rng := lib.NewRand("C08.pool.chains", 0)
 		for k := 0; k < 4; k++ {
 			var ch []byte
 			for n := 2 + rng.Intn(2); n > 0; n-- {
-				ch = append(ch, c08P.inputs[len(c08P.inputs)-1-rng.Intn(40)]...)
+				ch = append(ch, c08P.inputs[c08P.modeA[0]-1-rng.Intn(40)]...)
 			}
 			c08P.chains = append(c08P.chains, ch)
 		}
 		// chains that yield no File at all (empty source, a first header that is cut or is none),
 		// and one whose second member is cut inside its header
 		c08P.chains = append(c08P.chains, []byte{}, []byte{14, 0x20}, []byte("not a FIT header at all"),
-			append(append([]byte{}, c08P.inputs[len(c08P.inputs)-1]...), 14, 0x10, 0x43))
+			append(append([]byte{}, c08P.inputs[c08P.modeA[0]-1]...), 14, 0x10, 0x43))
 		for k := uint64(0); k < 30; k++ {
 			k := k
 			c08P.files = append(c08P.files, func() *fit.File {
@@ -544,6 +629,23 @@ func c08History(h uint64) []string {
 		pos := rng.Intn(len(calls))
 		a := rng.Intn(2)
 		ins := []string{fmt.Sprintf("E:%d:%d", cg[0], a), fmt.Sprintf("E:%d:%d", cg[1], a)}
+		calls = append(calls[:pos], append(ins, calls[pos:]...)...)
+	}
+	// mode pairs: every accepted stream with an unusual trait, then every stream with a defect of
+	// definition - in one history in three the other way round
+	if p.modeA[1] > p.modeA[0] && p.modeV[1] > p.modeV[0] {
+		var as, vs []string
+		for _, i := range rng.Perm(p.modeA[1] - p.modeA[0] + 1) {
+			as = append(as, fmt.Sprintf("D:%d:0", p.modeA[0]+i))
+		}
+		for _, i := range rng.Perm(p.modeV[1] - p.modeV[0] + 1) {
+			vs = append(vs, fmt.Sprintf("D:%d:0", p.modeV[0]+i))
+		}
+		ins := append(as, vs...)
+		if rng.Chance(1, 3) {
+			ins = append(vs, as...)
+		}
+		pos := rng.Intn(len(calls))
 		calls = append(calls[:pos], append(ins, calls[pos:]...)...)
 	}
 	// one twin group per history: the valid look-alikes, then the stream that must be rejected
